@@ -126,4 +126,375 @@ theorem hook_eq (m : VMState) (pre : Nat) (hb : m.scopeBit = .loc) :
       · simp [h2, setScope]
       · simp [h1, h2, setScope]
 
+/-! ## D. The simulation relation -/
+
+/-- The fonts that the open groups will restore, innermost first. -/
+def absFont : Nat → List (Option Nat) → List Nat
+  | _, [] => []
+  | cur, none :: r => cur :: absFont cur r
+  | _, some f :: r => f :: absFont f r
+
+/-- `es` is the list of environments whose four components are listed separately. -/
+inductive Zip4 : List Env → List (Var → Option Val) → List (Nat → Option Cmd) →
+    List (Nat → Option Cmd) → List Nat → Prop
+  | nil : Zip4 [] [] [] [] []
+  | cons (a : Var → Option Val) (b c : Nat → Option Cmd) (f : Nat)
+      {es : List Env} {as : List (Var → Option Val)} {bs cs : List (Nat → Option Cmd)} {fs : List Nat} :
+      Zip4 es as bs cs fs → Zip4 (⟨a, b, c, f⟩ :: es) (a :: as) (b :: bs) (c :: cs) (f :: fs)
+
+section Zip
+variable {es : List Env} {as : List (Var → Option Val)} {bs cs : List (Nat → Option Cmd)} {fs : List Nat}
+
+theorem Zip4.mapVar (v : Var) (x : Val) (h : Zip4 es as bs cs fs) :
+    Zip4 (es.map (Spec.setVarEnv v x)) (as.map (fun f => fupd f v (some x))) bs cs fs := by
+  induction h with
+  | nil => exact .nil
+  | cons a b c f _ ih => exact .cons _ _ _ _ ih
+
+theorem Zip4.mapCs (n : Nat) (c' : Cmd) (h : Zip4 es as bs cs fs) :
+    Zip4 (es.map (Spec.setCmdEnv (.cs n) c')) as (bs.map (fun f => fupd f n (some c'))) cs fs := by
+  induction h with
+  | nil => exact .nil
+  | cons a b c f _ ih => exact .cons _ _ _ _ ih
+
+theorem Zip4.mapAct (n : Nat) (c' : Cmd) (h : Zip4 es as bs cs fs) :
+    Zip4 (es.map (Spec.setCmdEnv (.act n) c')) as bs (cs.map (fun f => fupd f n (some c'))) fs := by
+  induction h with
+  | nil => exact .nil
+  | cons a b c f _ ih => exact .cons _ _ _ _ ih
+
+theorem Zip4.mapFont (f' : Nat) (h : Zip4 es as bs cs fs) :
+    Zip4 (es.map (Spec.setFontEnv f')) as bs cs (fs.map (fun _ => f')) := by
+  induction h with
+  | nil => exact .nil
+  | cons a b c f _ ih => exact .cons _ _ _ _ ih
+
+theorem Zip4.nil_inv (h : Zip4 [] as bs cs fs) : as = [] ∧ bs = [] ∧ cs = [] ∧ fs = [] := by
+  cases h; exact ⟨rfl, rfl, rfl, rfl⟩
+
+theorem Zip4.cons_inv {e : Env} (h : Zip4 (e :: es) as bs cs fs) :
+    ∃ as' bs' cs' fs', as = e.var :: as' ∧ bs = e.cs :: bs' ∧ cs = e.act :: cs' ∧ fs = e.font :: fs' ∧
+      Zip4 es as' bs' cs' fs' := by
+  cases h with
+  | cons a b c f h' => exact ⟨_, _, _, _, rfl, rfl, rfl, rfl, h'⟩
+
+end Zip
+
+section AbsShape
+variable {K V : Type} [DecidableEq K]
+
+theorem absGroups_eq_nil (f : K → Option V) (gs : List (AList K (Action V)))
+    (h : absGroups f gs = []) : gs = [] := by
+  cases gs with
+  | nil => rfl
+  | cons g t => simp [absGroups] at h
+
+theorem absGroups_eq_cons (f a : K → Option V) (gs : List (AList K (Action V)))
+    (as : List (K → Option V)) (h : absGroups f gs = a :: as) :
+    ∃ g t, gs = g :: t ∧ a = undo g f ∧ as = absGroups (undo g f) t := by
+  cases gs with
+  | nil => simp [absGroups] at h
+  | cons g t =>
+    simp only [absGroups, List.cons.injEq] at h
+    exact ⟨g, t, rfl, h.1.symm, h.2.symm⟩
+
+/-- Abstract state after `end_group` popped the log `g`. -/
+theorem abs_endGroup (bc : AList K V) (g : AList K (Action V)) (gs : List (AList K (Action V)))
+    (h : Inv ({ bc := bc, groups := g :: gs } : GMap K V)) :
+    ({ bc := GMap.applyLog g bc, groups := gs } : GMap K V).abs =
+      { cur := undo g (fun k => alookup bc k),
+        saved := absGroups (undo g (fun k => alookup bc k)) gs } := by
+  have hfun : (fun k => alookup (GMap.applyLog g bc) k) = undo g (fun k => alookup bc k) := by
+    funext k; exact alookup_applyLog g bc (h.logsNodup g (by simp)) k
+  simp only [GMap.abs, hfun]
+
+theorem abs_insert (m : GMap K V) (k : K) (v : V) (sc : Scope) (h : Inv m) :
+    (m.insert k v sc).1.abs = (m.abs.step (.insert k v sc)).1 :=
+  (gmap_refines m (.insert k v sc) h).1
+
+end AbsShape
+
+theorem absFont_eq_nil (c : Nat) (l : List (Option Nat)) (h : absFont c l = []) : l = [] := by
+  cases l with
+  | nil => rfl
+  | cons o t => cases o <;> simp [absFont] at h
+
+theorem absFont_eq_cons (c f : Nat) (l : List (Option Nat)) (fs : List Nat)
+    (h : absFont c l = f :: fs) :
+    ∃ o t, l = o :: t ∧ f = (match o with | none => c | some x => x) ∧ fs = absFont f t := by
+  cases l with
+  | nil => simp [absFont] at h
+  | cons o t =>
+    cases o with
+    | none =>
+      simp only [absFont, List.cons.injEq] at h
+      exact ⟨none, t, rfl, h.1.symm, by rw [← h.1]; exact h.2.symm⟩
+    | some x =>
+      simp only [absFont, List.cons.injEq] at h
+      exact ⟨some x, t, rfl, h.1.symm, by rw [← h.1]; exact h.2.symm⟩
+
+theorem absFont_map_none (f c : Nat) (l : List (Option Nat)) :
+    absFont f (l.map (fun _ => none)) = (absFont c l).map (fun _ => f) := by
+  induction l generalizing c with
+  | nil => rfl
+  | cons o t ih =>
+    cases o with
+    | none => simp [absFont, ih c]
+    | some x => simp [absFont, ih x]
+
+/-- The simulation relation: the flag is `Local`, the three scoped containers satisfy C20's
+invariant and abstract, level by level, to the components of the specification's environments. -/
+structure R (m : VMState) (s : Spec) : Prop where
+  bit : m.scopeBit = .loc
+  invV : Inv (varsG m)
+  invC : Inv m.cmds
+  invA : Inv m.active
+  curVar : s.cur.var = (varsG m).abs.cur
+  curCs : s.cur.cs = m.cmds.abs.cur
+  curAct : s.cur.act = m.active.abs.cur
+  curFont : s.cur.font = m.font
+  saved : Zip4 s.saved (varsG m).abs.saved m.cmds.abs.saved m.active.abs.saved
+    (absFont m.font m.fontSave)
+
+theorem R_init : R VMState.init Spec.init :=
+  ⟨rfl, inv_empty, inv_empty, inv_empty, rfl, rfl, rfl, rfl, .nil⟩
+
+theorem R.globalDefs {m : VMState} {s : Spec} (h : R m s) : globalDefs m = s.globalDefs := by
+  simp only [C01.globalDefs, Spec.globalDefs, h.curVar, GMap.abs, varsG]
+
+theorem R.getCmd {m : VMState} {s : Spec} (h : R m s) (t : CTarget) :
+    getCmd m t = Spec.getCmd s.cur t := by
+  cases t with
+  | cs n => simp only [C01.getCmd, Spec.getCmd, h.curCs, GMap.abs, GMap.get]
+  | act c => simp only [C01.getCmd, Spec.getCmd, h.curAct, GMap.abs, GMap.get]
+
+theorem R.resolveDef {m : VMState} {s : Spec} (h : R m s) (d : Def) :
+    resolveDef m d = Spec.resolveDef s.cur d := by
+  cases d <;> simp only [C01.resolveDef, Spec.resolveDef, h.getCmd]
+
+theorem R.read {m : VMState} {s : Spec} (h : R m s) (t : Target) :
+    readTarget m t = Spec.readTarget s.cur t := by
+  cases t with
+  | var v => simp only [readTarget, Spec.readTarget, h.curVar, GMap.abs, varsG]
+  | cmd t => simp only [readTarget, Spec.readTarget, h.getCmd, h.curVar, GMap.abs, varsG]
+  | font => simp only [readTarget, Spec.readTarget, h.curFont]
+
+/-! ### one step of each kind -/
+
+theorem R.beginGroup {m : VMState} {s : Spec} (h : R m s) :
+    R (beginGroup .fixed m) { cur := s.cur, saved := s.cur :: s.saved } := by
+  obtain ⟨hb, hV, hC, hA, cV, cC, cA, cF, hz⟩ := h
+  obtain ⟨⟨var, cs, act, font⟩, saved⟩ := s
+  simp only at cV cC cA cF hz
+  subst cV cC cA cF
+  refine ⟨hb, inv_beginGroup (varsG m) hV, ?_, ?_, rfl, rfl, rfl, rfl, ?_⟩
+  · exact inv_beginGroup _ hC
+  · exact inv_beginGroup _ hA
+  · exact Zip4.cons _ _ _ _ hz
+
+theorem R.assign {m : VMState} {s : Spec} (h : R m s) (pre : Nat) (v : Var) (x : Val) :
+    R (assign .fixed m pre v x) (s.update (Spec.effScope s.globalDefs pre) (Spec.setVarEnv v x)) := by
+  have hgd := h.globalDefs
+  obtain ⟨hb, hV, hC, hA, cV, cC, cA, cF, hz⟩ := h
+  simp only [C01.assign, hook_eq m pre hb, setVar_eq m v x _ hV, hgd]
+  have habs := abs_insert (varsG m) v x (Spec.effScope s.globalDefs pre) hV
+  have hinv := inv_insert (varsG m) v x (Spec.effScope s.globalDefs pre) hV
+  cases hsc : Spec.effScope s.globalDefs pre with
+  | loc =>
+    rw [hsc] at habs hinv
+    simp only [Snap.step] at habs
+    refine ⟨hb, hinv, hC, hA, ?_, cC, cA, cF, ?_⟩
+    · show fupd s.cur.var v (some x) = _
+      rw [cV]; exact (congrArg Snap.cur habs).symm
+    · show Zip4 s.saved ((varsG m).insert v x .loc).1.abs.saved _ _ _
+      rw [congrArg Snap.saved habs]; exact hz
+  | glob =>
+    rw [hsc] at habs hinv
+    simp only [Snap.step] at habs
+    refine ⟨hb, hinv, hC, hA, ?_, cC, cA, cF, ?_⟩
+    · show fupd s.cur.var v (some x) = _
+      rw [cV]; exact (congrArg Snap.cur habs).symm
+    · show Zip4 (s.saved.map (Spec.setVarEnv v x)) ((varsG m).insert v x .glob).1.abs.saved _ _ _
+      rw [congrArg Snap.saved habs]; exact hz.mapVar v x
+
+theorem R.insertCmd {m : VMState} {s : Spec} (h : R m s) (t : CTarget) (c : Cmd) (sc : Scope) :
+    R (insertCmd m t c sc) (s.update sc (Spec.setCmdEnv t c)) := by
+  obtain ⟨hb, hV, hC, hA, cV, cC, cA, cF, hz⟩ := h
+  cases t with
+  | cs n =>
+    have habs := abs_insert m.cmds n c sc hC
+    have hinv := inv_insert m.cmds n c sc hC
+    cases sc with
+    | loc =>
+      simp only [Snap.step] at habs
+      refine ⟨hb, hV, hinv, hA, cV, ?_, cA, cF, ?_⟩
+      · show fupd s.cur.cs n (some c) = _
+        rw [cC]; exact (congrArg Snap.cur habs).symm
+      · show Zip4 s.saved _ (m.cmds.insert n c .loc).1.abs.saved _ _
+        rw [congrArg Snap.saved habs]; exact hz
+    | glob =>
+      simp only [Snap.step] at habs
+      refine ⟨hb, hV, hinv, hA, cV, ?_, cA, cF, ?_⟩
+      · show fupd s.cur.cs n (some c) = _
+        rw [cC]; exact (congrArg Snap.cur habs).symm
+      · show Zip4 (s.saved.map (Spec.setCmdEnv (.cs n) c)) _ (m.cmds.insert n c .glob).1.abs.saved _ _
+        rw [congrArg Snap.saved habs]; exact hz.mapCs n c
+  | act n =>
+    have habs := abs_insert m.active n c sc hA
+    have hinv := inv_insert m.active n c sc hA
+    cases sc with
+    | loc =>
+      simp only [Snap.step] at habs
+      refine ⟨hb, hV, hC, hinv, cV, cC, ?_, cF, ?_⟩
+      · show fupd s.cur.act n (some c) = _
+        rw [cA]; exact (congrArg Snap.cur habs).symm
+      · show Zip4 s.saved _ _ (m.active.insert n c .loc).1.abs.saved _
+        rw [congrArg Snap.saved habs]; exact hz
+    | glob =>
+      simp only [Snap.step] at habs
+      refine ⟨hb, hV, hC, hinv, cV, cC, ?_, cF, ?_⟩
+      · show fupd s.cur.act n (some c) = _
+        rw [cA]; exact (congrArg Snap.cur habs).symm
+      · show Zip4 (s.saved.map (Spec.setCmdEnv (.act n) c)) _ _ (m.active.insert n c .glob).1.abs.saved _
+        rw [congrArg Snap.saved habs]; exact hz.mapAct n c
+
+theorem R.define {m : VMState} {s : Spec} (h : R m s) (pre : Nat) (t : CTarget) (d : Def) :
+    ∃ m', define .fixed m pre t d = some m' ∧ R m' (s.step (.define pre t d)).1 := by
+  have hgd := h.globalDefs
+  have hres := h.resolveDef d
+  simp only [C01.define, Variant.fixed, hook_eq m pre h.bit, Spec.step, hgd, hres]
+  cases hr : Spec.resolveDef s.cur d with
+  | none => exact ⟨m, by simp, h⟩
+  | some c => exact ⟨_, by simp, h.insertCmd t c _⟩
+
+theorem R.selectFont {m : VMState} {s : Spec} (h : R m s) (pre : Nat) (f : Nat) :
+    R (selectFont m pre f) (s.update (Spec.effScope s.globalDefs pre) (Spec.setFontEnv f)) := by
+  have hgd := h.globalDefs
+  obtain ⟨hb, hV, hC, hA, cV, cC, cA, cF, hz⟩ := h
+  simp only [C01.selectFont, hook_eq m pre hb, hgd]
+  obtain ⟨vars, save, cmds, active, font, fontSave, bit⟩ := m
+  cases hsc : Spec.effScope s.globalDefs pre with
+  | loc =>
+    refine ⟨hb, hV, hC, hA, cV, cC, cA, rfl, ?_⟩
+    cases fontSave with
+    | nil => exact hz
+    | cons o t => cases o <;> exact hz
+  | glob =>
+    refine ⟨hb, hV, hC, hA, cV, cC, cA, rfl, ?_⟩
+    dsimp only
+    rw [absFont_map_none f font]; exact hz.mapFont f
+
+theorem R.endGroup {m : VMState} {s : Spec} (h : R m s) :
+    (s.saved = [] ∧ (step .fixed m .endGroup) = (m, .errNoGroup)) ∨
+    (∃ e rest m', s.saved = e :: rest ∧ step .fixed m .endGroup = (m', .unit) ∧
+      R m' { cur := e, saved := rest }) := by
+  obtain ⟨hb, hV, hC, hA, cV, cC, cA, cF, hz⟩ := h
+  obtain ⟨vars, save, ⟨cbc, cgs⟩, ⟨abc, ags⟩, font, fontSave, bit⟩ := m
+  obtain ⟨cur, saved⟩ := s
+  simp only [varsG, GMap.abs] at hz hV cV cC cA cF
+  cases saved with
+  | nil =>
+    left
+    obtain ⟨-, h2, -, -⟩ := hz.nil_inv
+    have := absGroups_eq_nil _ _ h2
+    subst this
+    exact ⟨rfl, by simp [step, C01.endGroup, mapEndGroup, GMap.endGroup]⟩
+  | cons e rest =>
+    right
+    obtain ⟨as', bs', cs', fs', h1, h2, h3, h4, hz'⟩ := hz.cons_inv
+    obtain ⟨g1, t1, rfl, e1, r1⟩ := absGroups_eq_cons _ _ _ _ h1
+    obtain ⟨g2, t2, rfl, e2, r2⟩ := absGroups_eq_cons _ _ _ _ h2
+    obtain ⟨g3, t3, rfl, e3, r3⟩ := absGroups_eq_cons _ _ _ _ h3
+    obtain ⟨o, t4, rfl, e4, r4⟩ := absFont_eq_cons _ _ _ _ h4
+    have a1 := abs_endGroup vars g1 t1 hV
+    have a2 := abs_endGroup cbc g2 t2 hC
+    have a3 := abs_endGroup abc g3 t3 hA
+    have i1 := inv_endGroup vars g1 t1 hV
+    have i2 := inv_endGroup cbc g2 t2 hC
+    have i3 := inv_endGroup abc g3 t3 hA
+    subst r1 r2 r3 r4
+    cases o with
+    | none =>
+      refine ⟨e, _, VMState.mk (GMap.applyLog g1 vars) t1 ⟨GMap.applyLog g2 cbc, t2⟩
+        ⟨GMap.applyLog g3 abc, t3⟩ font t4 bit, rfl,
+        by simp [step, C01.endGroup, mapEndGroup, GMap.endGroup, Variant.fixed], ?_⟩
+      refine ⟨hb, i1, i2, i3, ?_, ?_, ?_, ?_, ?_⟩
+      · show e.var = _; rw [e1]; exact (congrArg Snap.cur a1).symm
+      · show e.cs = _; rw [e2]; exact (congrArg Snap.cur a2).symm
+      · show e.act = _; rw [e3]; exact (congrArg Snap.cur a3).symm
+      · exact e4
+      · simp only [varsG]
+        rw [congrArg Snap.saved a1, congrArg Snap.saved a2, congrArg Snap.saved a3]
+        simp only [] at e4
+        rw [← e4]; exact hz'
+    | some x =>
+      refine ⟨e, _, VMState.mk (GMap.applyLog g1 vars) t1 ⟨GMap.applyLog g2 cbc, t2⟩
+        ⟨GMap.applyLog g3 abc, t3⟩ x t4 bit, rfl,
+        by simp [step, C01.endGroup, mapEndGroup, GMap.endGroup, Variant.fixed], ?_⟩
+      refine ⟨hb, i1, i2, i3, ?_, ?_, ?_, ?_, ?_⟩
+      · show e.var = _; rw [e1]; exact (congrArg Snap.cur a1).symm
+      · show e.cs = _; rw [e2]; exact (congrArg Snap.cur a2).symm
+      · show e.act = _; rw [e3]; exact (congrArg Snap.cur a3).symm
+      · exact e4
+      · simp only [varsG]
+        rw [congrArg Snap.saved a1, congrArg Snap.saved a2, congrArg Snap.saved a3]
+        simp only [] at e4
+        rw [← e4]; exact hz'
+
+/-! ## E. Steps and programs -/
+
+theorem R.step {m : VMState} {s : Spec} (h : R m s) (op : Op) :
+    (step .fixed m op).2 = (s.step op).2 ∧ R (step .fixed m op).1 (s.step op).1 := by
+  cases op with
+  | beginGroup => exact ⟨rfl, h.beginGroup⟩
+  | endGroup =>
+    rcases h.endGroup with ⟨hs, hm⟩ | ⟨e, rest, m', hs, hm, hR⟩
+    · rw [hm]; simp only [Spec.step, hs]; exact ⟨trivial, h⟩
+    · rw [hm]; simp only [Spec.step, hs]; exact ⟨trivial, hR⟩
+  | assign pre v x => exact ⟨rfl, h.assign pre v x⟩
+  | define pre t d =>
+    obtain ⟨m', hd, hR⟩ := h.define pre t d
+    simp only [C01.step, hd]
+    refine ⟨?_, hR⟩
+    simp only [Spec.step]
+    cases Spec.resolveDef s.cur d <;> rfl
+  | selectFont pre f => exact ⟨rfl, h.selectFont pre f⟩
+  | read t => exact ⟨by simp only [C01.step, Spec.step, h.read], h⟩
+
+theorem refines_run_from {m : VMState} {s : Spec} (h : R m s) (ops : List Op) :
+    (run .fixed m ops).2 = (s.run ops).2 ∧ R (run .fixed m ops).1 (s.run ops).1 := by
+  induction ops generalizing m s with
+  | nil => exact ⟨rfl, h⟩
+  | cons op ops ih =>
+    obtain ⟨h1, h2⟩ := h.step op
+    simp only [run, Spec.run, h1]
+    by_cases hf : (s.step op).2.fatal = true
+    · simp only [hf, if_true]; exact ⟨trivial, h2⟩
+    · obtain ⟨i1, i2⟩ := ih h2
+      have hf' : (s.step op).2.fatal = false := by simpa using hf
+      simp only [hf', Bool.false_eq_true, if_false]
+      exact ⟨by rw [i1], i2⟩
+
+/-- Every state reached by a program is related to the specification's state. -/
+theorem R_reachable (ops : List Op) : R (run .fixed VMState.init ops).1 (Spec.init.run ops).1 :=
+  (refines_run_from R_init ops).2
+
+theorem run_append (cfg : Variant) (m : VMState) (a b : List Op)
+    (h : ∀ o ∈ (run cfg m a).2, o.fatal = false) :
+    run cfg m (a ++ b) = ((run cfg (run cfg m a).1 b).1, (run cfg m a).2 ++ (run cfg (run cfg m a).1 b).2) := by
+  induction a generalizing m with
+  | nil => rfl
+  | cons op a ih =>
+    simp only [List.cons_append, run] at h ⊢
+    by_cases hf : (step cfg m op).2.fatal = true
+    · simp only [hf, if_true] at h
+      have := h (step cfg m op).2 (by simp)
+      simp [hf] at this
+    · have hf' : (step cfg m op).2.fatal = false := by simpa using hf
+      simp only [hf', Bool.false_eq_true, if_false] at h ⊢
+      have h' : ∀ o ∈ (run cfg (step cfg m op).1 a).2, o.fatal = false :=
+        fun o ho => h o (by simp [ho])
+      rw [ih _ h']
+      simp
+
 end C01
